@@ -340,7 +340,12 @@ def replay_inproc(case, inputs_list, timeout=20):
     sym.set_cur(None)
     try:
         sys.stdout = sys.stderr = devnull
+        timeouts = 0
         for inputs in inputs_list:
+            if timeouts >= MAX_REPLAY_TIMEOUTS:
+                results.append(dict(failed=[], checked=[], assume_failed=False, timeout=True, skipped=True,
+                                    error="not run: %d earlier inputs of this case timed out after %ds" % (timeouts, timeout)))
+                continue
             saved = []
             orig_set = ConH.set_global
 
@@ -353,6 +358,7 @@ def replay_inproc(case, inputs_list, timeout=20):
                 r = _replay_one(case, inputs)
             except _Timeout:
                 r = dict(failed=[], checked=[], assume_failed=False, error="timeout after %ds" % timeout, timeout=True)
+                timeouts += 1
             finally:
                 signal.alarm(0)
                 ConH.set_global = orig_set
@@ -383,13 +389,24 @@ def replay_many(case, inputs_list, timeout=30):
     return replay_forked(case, inputs_list, timeout)
 
 
+MAX_REPLAY_TIMEOUTS = 3
+
+
 def replay_forked(case, inputs_list, timeout=30):
     """run the case natively on each concrete input dict in one forked child (per-item timeout);
     a hanging item is killed and reported as timeout, the rest continues in a fresh child"""
     results = [None] * len(inputs_list)
     start = 0
     ctx = multiprocessing.get_context('fork')
+    timeouts = 0
     while start < len(inputs_list):
+        if timeouts >= MAX_REPLAY_TIMEOUTS:
+            # the function hangs on input after input: the remaining ones are not tried (hours otherwise); they are reported as
+            # timeouts too, which is what they would most likely be, and never as passes
+            for k in range(start, len(inputs_list)):
+                results[k] = dict(failed=[], checked=[], assume_failed=False, timeout=True, skipped=True,
+                                  error="not run: %d earlier inputs of this case timed out after %ds" % (timeouts, timeout))
+            break
         q = ctx.Queue()
         p = ctx.Process(target=_quiet, args=(_replay_worker, case, inputs_list[start:], q))
         p.daemon = False
@@ -403,6 +420,7 @@ def replay_forked(case, inputs_list, timeout=30):
                     results[done] = dict(failed=[], checked=[], assume_failed=False,
                                          error="timeout after %ds" % timeout, timeout=True)
                     done += 1
+                    timeouts += 1
                     break
                 if i == -1:
                     done = len(inputs_list)
